@@ -602,4 +602,94 @@ def wholeRun (o : VOpts) : Nat → WState → List Out
   | 0, _ => []
   | n + 1, s => (wholeRead o s).1 :: wholeRun o n (wholeRead o s).2
 
+
+/-! ### PeekKind with its cache (decode.go:317-365, 475-484, 684-693)
+
+`peekPos` is an index into `d.buf` (non-zero when a kind is cached), `peekErr` the cached error — which may be the
+transient I/O error.  PeekKind returns the cached kind if there is one; after a cached ERROR it scans again.
+ReadToken / ReadValue return a cached error once and clear the cache; with a cached position they skip the head of
+the call (no `invalidatePreviousRead`, no blanks, no delimiter) and reset the cache; otherwise they run as before.
+SkipValue starts with PeekKind and then reads: it is modelled on the decoder with the cache dropped. -/
+
+structure PState where
+  s : SState
+  peekPos : Nat := 0
+  peekErr : Option Out := none
+
+/-- a result of a call of the extended script: a read/skip result, or the kind PeekKind returned (0 = KindInvalid) -/
+inductive OutP where
+  | out (o : Out)
+  | kind (k : UInt8)
+  deriving Repr, DecidableEq
+
+def peekKind (p : PState) : UInt8 × PState :=
+  if p.peekErr.isNone && p.peekPos != 0 then (kindAt p.s.w.buf p.peekPos, p)
+  else
+    let w0 := Window.invalidate p.s.w
+    let u := w0.unread
+    match scanWith p.s.st (fun u pos es f => .res (.tok pos p.s.st) pos u es f) u p.s.events with
+    | .fault u' es' =>
+      (0, { s := { p.s with w := commitFetch w0 true (u'.length - u.length), events := es' }, peekErr := some .fault })
+    | .res r start u' es' fetched =>
+      let w1 := commitFetch w0 fetched (u'.length - u.length)
+      match r with
+      | .err off e => (0, { s := { p.s with w := w1, events := es' }, peekErr := some (.err (w1.inputOffset + off) e) })
+      | .tok _ _ => (kindAt u' start, { s := { p.s with w := w1, events := es' }, peekPos := w1.prevEnd + start })
+
+/-- ReadToken / ReadValue entered with a cached position `start` (relative to the unread buffer): the `switch next`
+runs at once -/
+def readCached (lex : TState → Bytes → Nat → List Event → Bool → SRes) (span : UInt8 → Bool) (s : SState) (start : Nat) :
+    Out × SState :=
+  let u := s.w.unread
+  match lex s.st u start s.events false with
+  | .fault u' es' => (.fault, { s with w := commitFetch s.w true (u'.length - u.length), events := es' })
+  | .res r _ u' es' fetched =>
+    let w1 := commitFetch s.w fetched (u'.length - u.length)
+    match r with
+    | .err off e => (.err (w1.inputOffset + off) e, { s with w := w1, events := es' })
+    | .tok n st' =>
+      let k := kindAt u' start
+      (.tok k (w1.inputOffset + start) (w1.inputOffset + n),
+       { st := st', events := es',
+         w := Window.advance w1 (w1.prevEnd + (if span k then start else n)) (w1.prevEnd + n) })
+
+def readP (plain : SState → Out × SState) (lex : TState → Bytes → Nat → List Event → Bool → SRes) (span : UInt8 → Bool)
+    (p : PState) : Out × PState :=
+  match p.peekErr with
+  | some e => (e, { s := p.s })
+  | none =>
+    if p.peekPos != 0 then
+      ((readCached lex span p.s (p.peekPos - p.s.w.prevEnd)).1, { s := (readCached lex span p.s (p.peekPos - p.s.w.prevEnd)).2 })
+    else ((plain p.s).1, { s := (plain p.s).2 })
+
+def readTokenP (o : VOpts) (p : PState) : Out × PState :=
+  readP (readToken o) (lexS o) (fun k => k == 0x22 || k == 0x30) p
+
+def readValueP (o : VOpts) (p : PState) : Out × PState :=
+  readP (readValue o) (valS o (fuelFor (p.s.w.unread ++ avail p.s.events))) (fun _ => true) p
+
+inductive CallP where
+  | readToken | readValue | skipValue | peekKind
+  deriving Repr, DecidableEq
+
+def callP (o : VOpts) : CallP → PState → OutP × PState
+  | .readToken, p => (.out (readTokenP o p).1, (readTokenP o p).2)
+  | .readValue, p => (.out (readValueP o p).1, (readValueP o p).2)
+  | .skipValue, p => (.out (skipValue o p.s).1, { s := (skipValue o p.s).2 })
+  | .peekKind, p => (.kind (peekKind p).1, (peekKind p).2)
+
+def runScriptP (o : VOpts) : List CallP → PState → List OutP
+  | [], _ => []
+  | c :: cs, p => (callP o c p).1 :: runScriptP o cs (callP o c p).2
+
+def wholeCallP (o : VOpts) : CallP → WState → OutP × WState
+  | .readToken, s => (.out (wholeRead o s).1, (wholeRead o s).2)
+  | .readValue, s => (.out (wholeReadValue o s).1, (wholeReadValue o s).2)
+  | .skipValue, s => (.out (wholeSkipValue o s).1, (wholeSkipValue o s).2)
+  | .peekKind, s => (.kind (wholePeek s), s)
+
+def wholeScriptP (o : VOpts) : List CallP → WState → List OutP
+  | [], _ => []
+  | c :: cs, s => (wholeCallP o c s).1 :: wholeScriptP o cs (wholeCallP o c s).2
+
 end JsonV.Model.Stream
